@@ -56,7 +56,7 @@ STRATS = [
     ("net", {"method": 4, "NetIrrSMT": 80}, "WP"),          # initial water at WP: pre-irrigation fires
     ("constdepth", {"method": 5, "depth": 3.0}, "FC"),
 ]
-GWS = [("gw=off", None), ("gw=on", 1.5)]
+GWS = [("gw=off", None), ("gw=on", 1.5), ("gw=step", "step")]   # step: the table depth changes between the seasons (1.5 m, then 3.0 m from the second planting date)
 TABLES = {
     "water_flux": "time_step_counter season_counter dap Wr z_gw surface_storage IrrDay Infl Runoff DeepPerc CR GwIn "
                   "Es EsPot Tr TrPot".split(),
@@ -88,8 +88,10 @@ def base_cfg(crop, planting, soil_label, strat, gw, wx, year, iwc_override=None)
         irr["schedule"] = wm._schedule(p0, 3, p0, end)
     cfg = {"crop": crop, "planting": planting, "soil_label": soil_label, "soil": wm.soil_spec(soil_label),
            "irr": irr, "strategy": sname, "field": None, "fallow": None,
-           "gw": None if gw[1] is None else {"label": "const%g" % gw[1], "method": "Constant",
-                                              "dates": [p0.strftime("%Y/%m/%d")], "values": [gw[1]]},
+           "gw": None if gw[1] is None else (
+               {"label": "step1.5-3", "method": "Constant", "dates": [p0.strftime("%Y/%m/%d"), (p0 + pd.DateOffset(years=1)).strftime("%Y/%m/%d")], "values": [1.5, 3.0]}
+               if gw[1] == "step" else
+               {"label": "const%g" % gw[1], "method": "Constant", "dates": [p0.strftime("%Y/%m/%d")], "values": [gw[1]]}),
            "iwc": iwc_override if iwc_override is not None else iwc, "wx": wx,
            "start": p0.strftime("%Y/%m/%d"), "end": end.strftime("%Y/%m/%d"), "off_season": False}
     return cfg
@@ -220,7 +222,7 @@ def lattice(tier, seed):
         desc = ("half fraction (index-parity = seed parity) of crops(5: Wheat, Maize, Potato, MaizeGDD, AlfalfaGDD) x "
                 "soils(3: SandyLoam, Clay, custom layered lowKsub) x strategies(6: rainfed, SMT 80/70/60/50 with initial water at 50% TAW, "
                 "7-day interval, schedule, net irrigation 80% with initial water at WP, constant 3 mm/d; initial water FC otherwise) x "
-                "groundwater(off, constant 1.5 m), Tunis weather, seeded start year 1980-1995, 3 seasons")
+                "groundwater(off, constant 1.5 m, 1.5 m then 3.0 m from the second planting date), Tunis weather, seeded start year 1980-1995, 3 seasons")
     else:
         for (crop, pl) in CROPS:
             for soil in SOILS:
@@ -236,7 +238,7 @@ def lattice(tier, seed):
                                 iwc = ("Pct", 50)
                             cfgs.append(base_cfg(crop, pl, soil, st, gw, wx, year, iwc))
         desc = ("full product crops(7: Wheat, Maize, Potato, Tomato, MaizeGDD, WheatGDD, AlfalfaGDD) x soils(3) x strategies(6) x "
-                "groundwater(off, constant 1.5 m) x weather(3: Tunis, Champion, synthetic mixed [with 50% TAW initial water "
+                "groundwater(off, constant 1.5 m, stepping 1.5 -> 3.0 m) x weather(3: Tunis, Champion, synthetic mixed [with 50% TAW initial water "
                 "except net irrigation at WP]), seeded start years, 3 seasons; initial water FC except SMT (50% TAW) and net "
                 "irrigation (WP)")
     for i, c in enumerate(cfgs):
@@ -294,9 +296,10 @@ def main():
                         sig = "%s|scheduled-harvest-date-differs(latest harvest date derived from season-0 weather)" % \
                               calclass(cfg["crop"])
                     else:
-                        sig = "%s|irr=%d%s|first=%s@%s" % (
+                        sig = "%s|irr=%d%s%s|first=%s@%s" % (
                             calclass(cfg["crop"]), cfg["irr"]["method"],
-                            "|iwc=" + wm.iwc_label(cfg["iwc"]) if cfg["irr"]["method"] == 4 else "", f["lead"], when)
+                            "|iwc=" + wm.iwc_label(cfg["iwc"]) if cfg["irr"]["method"] == 4 else "",
+                            "|gw=table-depth-changes-between-seasons" if (cfg["gw"] and len(cfg["gw"]["values"]) > 1) else "", f["lead"], when)
                     e = sigs.get(sig)
                     rec = {"cfg": cfg, "case": case}
                     if e is None:
